@@ -575,6 +575,95 @@ def save (s : State) (tD tS : Time) : Except Err State :=
     .ok (if s.zip then { s10 with reader := retime tS d1 } else s10)
   else .error .outsideDomain
 
+/-! ## Save-as: `Font.save(newPath)` to a path where nothing exists, same structure.  The new UFO is
+written from memory: every top-level object is loaded (from the old UFO) and written, every glyph
+of every layer is loaded (through the layer's bound glyph set) and written, loaded images and data
+are written, the ones never loaded are copied from the old UFO as it is now; what was scheduled for
+deletion is simply not written and the schedules are dropped.  Afterwards the font is bound to the
+new UFO (`disk` then is the new UFO; the old one is no longer part of the state). -/
+
+def visibleKeys (l : MLayer) : List String := l.keys.filter fun gn => !AL.contains l.sched gn
+
+/-- `for glyph in self: pass` -/
+def loadGlyphs (ln : String) : State → List String → Except Err State
+  | s, [] => .ok s
+  | s, gn :: rest =>
+    match getGlyph s ln gn with
+    | .error e => .error e
+    | .ok (s1, _) => loadGlyphs ln s1 rest
+
+def loadLayers : State → List String → Except Err State
+  | s, [] => .ok s
+  | s, ln :: rest =>
+    match getLayer s ln with
+    | none => .error .keyError
+    | some l =>
+      match loadGlyphs ln s (visibleKeys l) with
+      | .error e => .error e
+      | .ok s1 => loadLayers s1 rest
+
+def saveAsPart (s : State) (tD : Time) (p : Part) : Option (Part × File) :=
+  match getPart s p with
+  | some mp => if mp.value = 0 ∧ p ≠ .info then none else some (p, ⟨mp.value, tD⟩)
+  | none => none
+
+/-- a loaded entry is written; one that was never loaded is copied from the old UFO if it is there -/
+def saveAsFile (old : List (String × File)) (tD : Time) (p : String × Entry) : Option (String × File) :=
+  match p.2.data with
+  | some b => some (p.1, ⟨b, tD⟩)
+  | none => (AL.get? old p.1).map fun f => (p.1, ⟨f.blob, tD⟩)
+
+def saveAsEntry (tM : Time) (p : String × Entry) : String × Entry :=
+  match p.2.data with
+  | some b => (p.1, { p.2 with dirty := false, onDisk := true, modTime := some tM, digest := some b })
+  | none => p
+
+def saveAsFS (tM : Time) (fs : FileSet) : FileSet := { entries := fs.entries.map (saveAsEntry tM), sched := [] }
+
+def saveAsGlif (tD : Time) (p : String × MGlyph) : String × File := (p.1, ⟨p.2.value, tD⟩)
+
+def saveAsDLayer (tD : Time) (l : MLayer) : DLayer := { info := l.info, glifs := l.glyphs.map (saveAsGlif tD) }
+
+def saveAsGlyph (tM : Time) (p : String × MGlyph) : String × MGlyph :=
+  (p.1, { p.2 with dirty := false, stamp := some ⟨p.2.value, tM⟩ })
+
+def saveAsMLayer (tM : Time) (ln : String) (l : MLayer) : MLayer :=
+  { l with glyphs := l.glyphs.map (saveAsGlyph tM), sched := [], infoStamp := some l.info,
+           gs := some ⟨ln, AL.keys l.glyphs, true⟩ }
+
+def saveAsLayerEntry (s : State) (tD : Time) (ln : String) : Option (String × DLayer) :=
+  (getLayer s ln).map fun l => (ln, saveAsDLayer tD l)
+
+/-- the UFO a save-as writes, from the font with everything loaded -/
+def saveAsDisk (s : State) (tD : Time) : Disk :=
+  { parts := allParts.filterMap (saveAsPart s tD)
+    layers := s.font.order.filterMap (saveAsLayerEntry s tD)
+    default := s.font.default
+    images := s.font.images.entries.filterMap (saveAsFile s.disk.images tD)
+    data := s.font.data.entries.filterMap (saveAsFile s.disk.data tD) }
+
+def saveAsMPart (zip : Bool) (tS : Time) (d : Disk) (p : Part × MPart) : Part × MPart :=
+  (p.1, { p.2 with dirty := false, stamp := stampW zip tS d p.1 })
+
+def saveAsMLayer' (tM : Time) (p : String × MLayer) : String × MLayer := (p.1, saveAsMLayer tM p.1 p.2)
+
+/-- the font after a save-as that wrote `d` -/
+def saveAsFont (zip : Bool) (tD tS : Time) (d : Disk) (f : Font) : Font :=
+  let tM := if zip then tS else tD
+  { f with parts := f.parts.map (saveAsMPart zip tS d)
+           layers := f.layers.map (saveAsMLayer' tM)
+           history := (f.order.filter (some · ≠ f.default)).map Action.new
+           images := saveAsFS tM f.images
+           data := saveAsFS tM f.data }
+
+def saveAs (s : State) (tD tS : Time) : Except Err State :=
+  let s1 := allParts.foldl loadPart s
+  match loadLayers s1 s1.font.order with
+  | .error e => .error e
+  | .ok s2 =>
+    let d := saveAsDisk s2 tD
+    .ok { s2 with disk := d, reader := if s.zip then retime tS d else d, font := saveAsFont s.zip tD tS d s2.font }
+
 
 /-! ## `testForExternalChanges` -/
 
@@ -994,6 +1083,7 @@ inductive Op where
   | fset (img : Bool) (n : String) (b : Option Blob)
   | fget (img : Bool) (n : String)
   | save (tD tS : Time)
+  | saveas (tD tS : Time)
   | xpart (p : Part) (a : XAct) (t : Option Time)
   | xglyph (ln gn : String) (a : XAct) (t : Option Time)
   | xlinfo (ln : String) (v : Blob)
@@ -1060,6 +1150,10 @@ def step (s : State) : Op → State × Res
     | .error e => (s, .err e)
   | .save tD tS =>
     match save s tD tS with
+    | .ok s1 => (s1, .disk)
+    | .error e => (s, .err e)
+  | .saveas tD tS =>
+    match saveAs s tD tS with
     | .ok s1 => (s1, .disk)
     | .error e => (s, .err e)
   | .xpart p a t => ofDisk s (xPart s.zip s.disk p a t)
